@@ -1118,6 +1118,11 @@ func psSearchInit(start *ssa.BasicBlock, init map[ssa.Value]bool, cut []Edge, bl
 			if isIf {
 				// outcome of the underlying value on this edge
 				out := (i == 0) == cpos
+				if kc, isK := ck.(*ssa.Const); isK && kc.Value != nil && kc.Value.Kind() == constant.Bool {
+					if constant.BoolVal(kc.Value) != out {
+						continue // infeasible: the condition is a constant (a flag that every remaining path sets the same way)
+					}
+				}
 				if isNilOut, okn := nilTestOutcome(ck, known); okn && isNilOut != out {
 					continue // infeasible: the compared value is known (not) to be nil on this path
 				}
